@@ -125,6 +125,12 @@ ARRAY_KINDS = {'GLib.Array': 1, 'GLib.PtrArray': 2, 'GLib.ByteArray': 3}
 
 QUIRKS = {
     # name -> (key reported through ctx.report_failure, description)
+    'accessor-of-absent-property': (
+        'accessor-of-absent-property:linked-to-last-property',
+        'girnode.c get_index_of_member_type returns the index of the LAST member of the kind (not -1) when no member has '
+        'the name: a method whose glib:get-property / glib:set-property names a property that is not in the typelib '
+        '(introspectable="0" or nonexistent) is recorded as getter / setter of the last property of its class or '
+        'interface (only a container without any property gives the plain method 593dde9 intended)'),
     'attribute-after-type-child': (
         'attribute-after-type-child:attached-to-enclosing-node',
         'girparser.c end_type clears ctx->current_typed: an <attribute> that FOLLOWS the <type>/<array>/<callback> child '
@@ -190,6 +196,8 @@ class Oracle(object):
                 (tag == q('constant') and par is not None and par.tag in (q('class'), q('interface')))):
             return []
         typelike = [q(t) for t in self.TYPELIKE]
+        if tag == q('field') and par is not None and par.tag in (q('union'), q('glib:boxed'), q('interface')):
+            typelike.remove(q('callback'))       # skipped as a whole there: the field stays the current element
         seen, out = False, []
         for c in el:
             if c.tag in typelike:
@@ -273,6 +281,12 @@ class Oracle(object):
                 t['dimension'] = (int(ln) if ln is not None else int(sz) if sz is not None else -1) & 0xFFFF
                 if t['has_size'] and in_field:
                     t['pointer'] = False
+                elif not t['has_length'] and in_field:
+                    # `T data[];` -- an array member without size and length whose C type is not a pointer type is a
+                    # flexible array member (what the scanner writes for it), not a pointer
+                    act = el.get(q('c:type'))
+                    if act is None or not act.endswith('*'):
+                        t['pointer'] = False
             else:
                 t.update({'has_length': False, 'has_size': False, 'zero_terminated': False, 'dimension': 0xFFFF})
             return t
@@ -363,12 +377,17 @@ class Oracle(object):
              'setter': False, 'getter': False, 'prop': None, 'attrs': self.attrs_of(el)}
         if tag in (q('method'), q('constructor')):
             sp, gp = el.get(q('glib:set-property')), el.get(q('glib:get-property'))
+            wrong = props and 'accessor-of-absent-property' in self.quirks
             if sp is not None:
                 if sp in props:
                     f['setter'], f['prop'] = True, sp
+                elif wrong:
+                    f['setter'], f['prop'] = True, props[-1]
             elif gp is not None:
                 if gp in props:
                     f['getter'], f['prop'] = True, gp
+                elif wrong:
+                    f['getter'], f['prop'] = True, props[-1]
         f['sig'] = self.x_signature(el, 'function')
         f['sig']['throws'] = f['throws']
         return f
@@ -386,7 +405,12 @@ class Oracle(object):
         else:
             f = {'name': el.get('name'), 'attrs': self.attrs_of(el)}
             cb = el.find(q('callback'))
-            if cb is not None:
+            par = self.parent.get(el)
+            if cb is not None and par is not None and par.tag in (q('union'), q('glib:boxed'), q('interface')):
+                # UnionBlob (and a boxed / interface) cannot embed a CallbackBlob: a function pointer member there is an
+                # untyped pointer
+                f['type'] = {'tag': 'void', 'pointer': True}
+            elif cb is not None:
                 f['callback'] = self.x_callback(cb)
             else:
                 f['type'] = self.x_type(self._type_child(el), in_field=True)
@@ -973,7 +997,7 @@ class Gen(object):
         if allow_callback and self.p(0.2) and bits is None:
             cb = self.gen_callable('callback', name)
             f.add(cb)
-            self.hit('field:callback')
+            self.hit('field:callback:' + container_kind)
         elif bits is not None:
             f.add(E('type', [('name', 'guint'), ('c:type', 'guint')]))
         else:
@@ -1069,8 +1093,17 @@ class Gen(object):
         el = E('union', a)
         self.docs(el)
         self.attributes(el, 0.2, 'union')
-        for f in self.unique_members(self.count(), lambda: self.gen_field('union', False)):
+        fields = self.unique_members(self.count(), lambda: self.gen_field('union', True))
+        for f in fields:
             el.add(f)
+        if fields and any(c.tag == 'callback' for c in fields[-1].children):
+            if self.p(0.85):
+                # a function pointer member is usually not the last typed member (see STALE_KEY: a function that follows
+                # it is swallowed by the compiler)
+                el.add(E('field', [('name', self.fresh('tail_member')), ('writable', '1')],
+                         [E('type', [('name', 'gint32'), ('c:type', 'gint32')])]))
+            else:
+                self.hit('union:callback-member-last')
         self.gen_methods(el, name)
         self.top.append(el)
         self.names['union'].append(name)
@@ -1966,6 +1999,55 @@ class Pipeline(object):
         return out
 
 
+STALE_KEY = 'function-after-callback-member-of-union:attached-to-that-field'
+STALE_WHAT = ('girparser.c start_function (b00e44e): the <callback> of a union / boxed / interface field is skipped without '
+              'clearing ctx->current_typed, so the next <function>/<method>/<constructor>/<callback> start inside a container '
+              '(before any parameter, return value, field, property, member or constant is read) is stored as THAT FIELD\'s '
+              'callback instead of as a member of its container: the function is missing and the typelib is corrupt')
+
+
+PENDING_FINDINGS[STALE_KEY] = STALE_WHAT
+
+
+def function_swallowed_by_stale_field(gir_text):
+    """-> name of the first function-like element that the compiler attaches to a stale union/boxed/interface field
+    (see STALE_WHAT), or None.  Follows the parser: elements marked introspectable="0" / shadowed-by and the
+    instance parameter are skipped as a whole; every typed element start replaces the current typed element, the end
+    of its type clears it -- except for the skipped <callback> of a union / boxed / interface field."""
+    try:
+        root = ET.fromstring(gir_text)
+    except ET.ParseError:
+        return None
+    nsel = root.find(q('namespace'))
+    if nsel is None:
+        return None
+    typed = (q('parameter'), q('return-value'), q('field'), q('property'), q('member'), q('constant'))
+    funcs = (q('function'), q('method'), q('constructor'), q('callback'))
+    flat = (q('union'), q('glib:boxed'), q('interface'))
+    state = {'stale': False, 'hit': None}
+
+    def walk(el, parent):
+        for c in el:
+            if state['hit'] is not None:
+                return
+            if c.get('introspectable') == '0' and c.tag != q('parameter') and c.tag != q('return-value'):
+                continue
+            if c.get('shadowed-by') is not None or c.tag == q('instance-parameter'):
+                continue
+            if c.tag in funcs and el is not nsel and state['stale']:
+                state['hit'] = '%s.%s' % (el.get('name') or el.get(q('glib:name')), c.get('name'))
+                return
+            if c.tag in typed:
+                state['stale'] = False
+                if c.tag == q('field') and el.tag in flat and c.find(q('callback')) is not None:
+                    state['stale'] = True
+                    continue                      # the callback is skipped as a whole
+            walk(c, el)
+
+    walk(nsel, None)
+    return state['hit']
+
+
 def signal_when_outside_schema(gir_text):
     """-> the `when` values of signals that are not one of the schema's "first" | "last" | "cleanup" (docs/gir-1.2.rnc):
     such a document is not a valid GIR, i.e. outside the property's quantifier"""
@@ -2215,6 +2297,17 @@ class Judge(object):
             rec['public'] = pipe.public_names(d, case['ns'])
         return rec
 
+    def fail(self, case, what, text, replay):
+        """a failure of the property on `case`; documents of the known class STALE_KEY (their typelib is corrupt in
+        unpredictable ways) are reported under that key"""
+        if '_swallowed' not in case:
+            case['_swallowed'] = function_swallowed_by_stale_field(case['gir'])
+        if case['_swallowed'] is not None and what in ('crash', 'validate', 'decode', 'structure', 'api', 'public-load'):
+            self.cnt.hit('finding:function-after-callback-member-of-union')
+            self.ctx.report_failure(STALE_KEY, STALE_WHAT + ' -- e.g. %s: %s' % (case['_swallowed'], text[:200]), replay)
+        else:
+            self.ctx.report_failure(self.api_key(case, what), text, replay)
+
     def api_key(self, case, what):
         return 'api:%s:%s' % (hashlib.sha1(case['gir'].encode('utf-8')).hexdigest()[:12], what)
 
@@ -2246,7 +2339,7 @@ class Judge(object):
                                      % signal_when_outside_schema(case['gir'])[0])
                 return False
             cnt.hit('fail:compiler-crashed')
-            ctx.report_failure(self.api_key(case, 'crash'),
+            self.fail(case, 'crash',
                                'g-ir-compiler parsed the GIR and then failed while writing/validating the typelib: rc=%d %s'
                                % (res['rc'], res['stderr'][-600:]), replay_obj(case))
             return False
@@ -2268,11 +2361,11 @@ class Judge(object):
                 cnt.hit('validate:ok')
             else:
                 cnt.hit('fail:validate')
-                ctx.report_failure(self.api_key(case, 'validate'),
+                self.fail(case, 'validate',
                                    'g_typelib_validate rejects the typelib the compiler wrote: ' + cval[:300], replay_obj(case))
         if 'error' in dec:
             cnt.hit('fail:decode-error')
-            ctx.report_failure(self.api_key(case, 'decode'),
+            self.fail(case, 'decode',
                                'the field-by-field decoder cannot read the typelib according to the format: %r' % (dec['error'],),
                                replay_obj(case))
             return
@@ -2280,7 +2373,7 @@ class Judge(object):
         probs = structural_problems(raw, data, pipe.sizes)
         if probs:
             cnt.hit('fail:structure')
-            ctx.report_failure(self.api_key(case, 'structure'),
+            self.fail(case, 'structure',
                                'sizes/offsets disagree with the format: ' + '; '.join(probs[:4]), replay_obj(case))
         else:
             cnt.hit('structure:ok')
@@ -2297,7 +2390,7 @@ class Judge(object):
             cnt.hit('fail:api-differs')
             exp_q = expected_api(case['gir'], case.get('deps', ()), case.get('shlib_option'), quirks=QUIRKS.keys())
             dq = diff(exp_q, actual)
-            ctx.report_failure(self.api_key(case, 'api'),
+            self.fail(case, 'api',
                                'the decoded typelib does not describe the API of the GIR: ' + '; '.join((dq or d0)[:4]),
                                replay_obj(case, {'differences': (dq or d0)[:12]}))
         self.collect_sizes(case, raw, data)
@@ -2305,7 +2398,7 @@ class Judge(object):
         if public is not None:
             if isinstance(public, str):
                 cnt.hit('public:load-failed')
-                ctx.report_failure(self.api_key(case, 'public-load'),
+                self.fail(case, 'public-load',
                                    'the public repository API cannot load the typelib: ' + public[:300], replay_obj(case))
             else:
                 mine = [(e['name'], e['blob_type']) for e in raw['entries'] if e['local']]
